@@ -71,6 +71,7 @@ type Provider struct {
 	CtxAware bool   `json:"ctx_aware"`
 	Form     string `json:"form"` // func | lit | value | struct
 	Struct   int    `json:"struct"`
+	VarRef   string `json:"var_ref,omitempty"` // value: kessoku.Value(<package-level variable>) declared in a tool-generated file
 }
 
 // Use is one provider expression inside an Inject call.
